@@ -19,6 +19,9 @@ Book == /\ nops < MaxOps
 NoBook == WithReads /\ UNCHANGED <<nops, hist>>
 
 MBegin        == Begin /\ Book
+MBeginWait    == BeginWait /\ Book
+MAdmit        == Admit /\ Book
+MResizeRefused == ResizeRefused /\ Book
 MChild        == Child /\ Book
 MCommitChild  == CommitChild /\ Book
 MDropChild    == DropChild /\ Book
@@ -38,14 +41,14 @@ MOutGet       == \E sp \in Spaces, key \in Keys : OutGet(sp, key) /\ NoBook
 MOutExists    == \E sp \in Spaces, key \in Keys : OutExists(sp, key) /\ NoBook
 MOutIter      == \E sp \in Spaces : OutIter(sp) /\ NoBook
 
-MCNext == \/ MBegin \/ MChild \/ MCommitChild \/ MDropChild \/ MCommit \/ MDrop \/ MResize \/ MCrash
+MCNext == \/ MBegin \/ MBeginWait \/ MAdmit \/ MResizeRefused \/ MChild \/ MCommitChild \/ MDropChild \/ MCommit \/ MDrop \/ MResize \/ MCrash
           \/ MPut \/ MDel \/ MOutIterOpen \/ MOutIterNext \/ MOutIterClose
           \/ MGet \/ MExists \/ MIter \/ MOutGet \/ MOutExists \/ MOutIter
 MCSpec == MCInit /\ [][MCNext]_<<vars, nops, hist>>
 
 \* random walks (simulation mode): same actions, thinned so that nesting gets deep
 P(n) == RandomElement(1..100) <= n
-SimNext == \/ MBegin \/ (MPut /\ P(14)) \/ (MDel /\ P(20)) \/ MChild
+SimNext == \/ MBegin \/ MBeginWait \/ MAdmit \/ (MPut /\ P(14)) \/ (MDel /\ P(20)) \/ MChild
            \/ MCommitChild \/ (MDropChild /\ P(60)) \/ (MCommit /\ P(50)) \/ (MDrop /\ P(20))
            \/ (MCrash /\ P(5)) \/ (MOutIterOpen /\ P(15)) \/ (MOutIterNext /\ P(60)) \/ (MOutIterClose /\ P(30))
 SimSpec == MCInit /\ [][SimNext]_<<vars, nops, hist>>
